@@ -176,6 +176,10 @@ func strategyTable() map[string][]string {
 		}
 		s := re.VerifEngine().Strategy().String()
 		m[s] = append(m[s], p)
+		if pf := re.VerifEngine().VerifPrefilter(); pf != nil {
+			k := fmt.Sprintf("prefilter:%T", pf)
+			m[k] = append(m[k], p)
+		}
 	}
 	for _, v := range m {
 		sort.Strings(v)
